@@ -6,604 +6,17 @@ package main
 
 import (
 	"fmt"
-	"math/rand"
 	"os"
 	"path/filepath"
 	"strings"
 	"sync"
 
-	"github.com/btcsuite/btcd/blockchain"
-	"github.com/btcsuite/btcd/chainhash/v2"
-	"github.com/lightninglabs/neutrino/headerfs"
-
 	c "verifharness/internal/common"
 	"verifharness/internal/storeh"
 )
 
-type Ent struct {
-	A int64 `json:"a"` // bwrite: block token; fwrite: filter token
-	B int64 `json:"b"` // bwrite: height;      fwrite: block token
-}
-
-type Op struct {
-	Kind  string `json:"kind"`
-	Es    []Ent  `json:"es,omitempty"`
-	N     int64  `json:"n,omitempty"`
-	X     int64  `json:"x,omitempty"`
-	Fault string `json:"fault,omitempty"` // "", write, writetrunc, db, dbsync, trunc
-	K     int64  `json:"k,omitempty"`
-	Obs   string `json:"obs,omitempty"` // Gallina term of the observation
-	WF    bool   `json:"wf"`            // generated as a well-formed call
-}
-
-type History struct {
-	ID  int  `json:"id"`
-	Ops []Op `json:"ops"`
-}
-
-type locatorer interface {
-	BlockLocatorFromHash(hash *chainhash.Hash) (blockchain.BlockLocator, error)
-}
-
-type env struct {
-	dir  string
-	db   *storeh.FDB
-	bs   headerfs.BlockHeaderStore
-	fs   headerfs.FilterHeaderStore
-	bf   *storeh.FFile
-	ff   *storeh.FFile
-	pool *storeh.Pool
-}
-
-func (e *env) open() error {
-	raw, err := storeh.OpenDB(e.dir)
-	if err != nil {
-		return err
-	}
-	e.db = &storeh.FDB{DB: raw}
-	e.bs, err = headerfs.NewBlockHeaderStore(e.dir, e.db, storeh.Params)
-	if err != nil {
-		raw.Close()
-		return err
-	}
-	e.fs, err = headerfs.NewFilterHeaderStore(e.dir, e.db, headerfs.RegularFilter, storeh.Params, nil)
-	if err != nil {
-		headerfs.VerifCloseBlockFile(e.bs)
-		raw.Close()
-		return err
-	}
-	headerfs.VerifWrapBlockFile(e.bs, func(f headerfs.File) headerfs.File {
-		e.bf = storeh.NewFFile(f, "block")
-		return e.bf
-	})
-	headerfs.VerifWrapFilterFile(e.fs, func(f headerfs.File) headerfs.File {
-		e.ff = storeh.NewFFile(f, "filter")
-		return e.ff
-	})
-	return nil
-}
-
-func (e *env) close() {
-	if e.bs != nil {
-		headerfs.VerifCloseBlockFile(e.bs)
-	}
-	if e.fs != nil {
-		headerfs.VerifCloseFilterFile(e.fs)
-	}
-	if e.db != nil {
-		e.db.DB.Close()
-	}
-	e.bs, e.fs, e.db = nil, nil, nil
-}
-
-func (e *env) arm(file *storeh.FFile, fault string, k int64) {
-	switch fault {
-	case "write":
-		file.WriteFailAt = k
-	case "writetrunc":
-		file.WriteFailAt = k
-		file.TruncFail = true
-	case "db":
-		e.db.Fail = true
-	case "dbsync":
-		e.db.Fail = true
-		file.SyncFail = true
-	case "trunc":
-		// For appends: db failure followed by a failing compensation;
-		// for rollbacks: the truncate itself fails.
-		file.TruncFail = true
-	}
-}
-
-func (e *env) disarm() {
-	for _, f := range []*storeh.FFile{e.bf, e.ff} {
-		f.WriteFailAt, f.TruncFail, f.SyncFail = -1, false, false
-	}
-	e.db.Fail = false
-}
-
-func optPair(ok bool, a, b int64) string {
-	if !ok {
-		return "None"
-	}
-	return c.Some(c.Pair(c.Z(a), c.Z(b)))
-}
-
-func toks(l []int64) string { return c.Ints(l) }
-
-// exec runs one op on the real stores and returns the observation term; the
-// bool is false when the history must stop (reopen failed).
-func (e *env) exec(op *Op) bool {
-	p := e.pool
-	switch op.Kind {
-	case "bwrite":
-		hdrs := make([]headerfs.BlockHeader, len(op.Es))
-		for i, en := range op.Es {
-			hdrs[i] = headerfs.BlockHeader{BlockHeader: p.Header(en.A), Height: uint32(en.B)}
-		}
-		if op.Fault == "trunc" {
-			e.db.Fail = true
-		}
-		e.arm(e.bf, op.Fault, op.K)
-		err := e.bs.WriteHeaders(hdrs...)
-		e.disarm()
-		op.Obs = c.App("ORes", c.Bool(err == nil))
-	case "fwrite":
-		hdrs := make([]headerfs.FilterHeader, len(op.Es))
-		for i, en := range op.Es {
-			hdrs[i] = headerfs.FilterHeader{FilterHash: p.Filter(en.A), HeaderHash: p.Hash(en.B)}
-		}
-		if op.Fault == "trunc" {
-			e.db.Fail = true
-		}
-		e.arm(e.ff, op.Fault, op.K)
-		err := e.fs.WriteHeaders(hdrs...)
-		e.disarm()
-		op.Obs = c.App("ORes", c.Bool(err == nil))
-	case "brollback":
-		e.arm(e.bf, op.Fault, op.K)
-		st, err := e.bs.RollbackBlockHeaders(uint32(op.N))
-		e.disarm()
-		if err != nil {
-			op.Obs = "(OStamp None)"
-		} else {
-			op.Obs = c.App("OStamp", optPair(true, int64(uint32(st.Height)), p.BTok(st.Hash)))
-		}
-	case "frollback":
-		nt := p.Hash(op.X)
-		e.arm(e.ff, op.Fault, op.K)
-		st, err := e.fs.RollbackLastBlock(&nt)
-		e.disarm()
-		if err != nil {
-			op.Obs = "(OStamp None)"
-		} else {
-			op.Obs = c.App("OStamp", optPair(true, int64(uint32(st.Height)), p.FTok(st.Hash)))
-		}
-	case "reopen":
-		e.close()
-		if err := e.open(); err != nil {
-			op.Obs = "(OReopen false)"
-			return false
-		}
-		op.Obs = "(OReopen true)"
-	case "qbtip":
-		h, ht, err := e.bs.ChainTip()
-		if err != nil {
-			op.Obs = "(OPair None)"
-		} else {
-			op.Obs = c.App("OPair", optPair(true, p.HTok(h), int64(ht)))
-		}
-	case "qbheight":
-		h, err := e.bs.FetchHeaderByHeight(uint32(op.N))
-		if err != nil {
-			op.Obs = "(OTok None)"
-		} else {
-			op.Obs = c.App("OTok", c.Some(c.Z(p.HTok(h))))
-		}
-	case "qbhash":
-		x := p.Hash(op.X)
-		h, ht, err := e.bs.FetchHeader(&x)
-		if err != nil {
-			op.Obs = "(OPair None)"
-		} else {
-			op.Obs = c.App("OPair", optPair(true, p.HTok(h), int64(ht)))
-		}
-	case "qheightof":
-		x := p.Hash(op.X)
-		ht, err := e.bs.HeightFromHash(&x)
-		if err != nil {
-			op.Obs = "(OTok None)"
-		} else {
-			op.Obs = c.App("OTok", c.Some(c.Z(int64(ht))))
-		}
-	case "qbanc":
-		x := p.Hash(op.X)
-		hs, start, err := e.bs.FetchHeaderAncestors(uint32(op.N), &x)
-		if err != nil {
-			op.Obs = "(OList None)"
-		} else {
-			var l []int64
-			for i := range hs {
-				l = append(l, p.HTok(&hs[i]))
-			}
-			op.Obs = c.App("OList", c.Some(c.Pair(toks(l), c.Z(int64(start)))))
-		}
-	case "qlocator", "qlatest":
-		var loc blockchain.BlockLocator
-		var err error
-		if op.Kind == "qlatest" {
-			loc, err = e.bs.LatestBlockLocator()
-			if err != nil && len(loc) == 0 {
-				op.Obs = "(OLoc None)"
-				break
-			}
-		} else {
-			x := p.Hash(op.X)
-			loc, err = e.bs.(locatorer).BlockLocatorFromHash(&x)
-		}
-		var l []int64
-		for _, h := range loc {
-			l = append(l, p.BTok(*h))
-		}
-		op.Obs = c.App("OLoc", c.Some(c.Pair(toks(l), c.Bool(err == nil))))
-	case "qftip":
-		h, ht, err := e.fs.ChainTip()
-		if err != nil {
-			op.Obs = "(OPair None)"
-		} else {
-			op.Obs = c.App("OPair", optPair(true, p.FTok(*h), int64(ht)))
-		}
-	case "qfheight":
-		h, err := e.fs.FetchHeaderByHeight(uint32(op.N))
-		if err != nil {
-			op.Obs = "(OTok None)"
-		} else {
-			op.Obs = c.App("OTok", c.Some(c.Z(p.FTok(*h))))
-		}
-	case "qfhash":
-		x := p.Hash(op.X)
-		h, err := e.fs.FetchHeader(&x)
-		if err != nil {
-			op.Obs = "(OTok None)"
-		} else {
-			op.Obs = c.App("OTok", c.Some(c.Z(p.FTok(*h))))
-		}
-	case "qfanc":
-		x := p.Hash(op.X)
-		hs, start, err := e.fs.FetchHeaderAncestors(uint32(op.N), &x)
-		if err != nil {
-			op.Obs = "(OList None)"
-		} else {
-			var l []int64
-			for i := range hs {
-				l = append(l, p.FTok(hs[i]))
-			}
-			op.Obs = c.App("OList", c.Some(c.Pair(toks(l), c.Z(int64(start)))))
-		}
-	default:
-		panic("op " + op.Kind)
-	}
-	return true
-}
-
-func faultTerm(op *Op) string {
-	switch op.Fault {
-	case "":
-		return "NoFault"
-	case "write":
-		return c.App("WriteFail", c.Z(op.K))
-	case "writetrunc":
-		return c.App("WriteTruncFail", c.Z(op.K))
-	case "db":
-		return "DbFail"
-	case "dbsync":
-		return "DbSyncFail"
-	case "trunc":
-		return "TruncFail"
-	}
-	panic(op.Fault)
-}
-
-func opTerm(op *Op) string {
-	ents := func() string {
-		it := make([]string, len(op.Es))
-		for i, e := range op.Es {
-			it[i] = c.Pair(c.Z(e.A), c.Z(e.B))
-		}
-		return c.List(it)
-	}
-	switch op.Kind {
-	case "bwrite":
-		return c.App("BWrite", ents(), faultTerm(op))
-	case "fwrite":
-		return c.App("FWrite", ents(), faultTerm(op))
-	case "brollback":
-		return c.App("BRollback", c.Z(op.N), faultTerm(op))
-	case "frollback":
-		return c.App("FRollback", c.Z(op.X), faultTerm(op))
-	case "reopen":
-		return "Reopen"
-	case "qbtip":
-		return "QBTip"
-	case "qbheight":
-		return c.App("QBHeight", c.Z(op.N))
-	case "qbhash":
-		return c.App("QBHash", c.Z(op.X))
-	case "qheightof":
-		return c.App("QHeightOf", c.Z(op.X))
-	case "qbanc":
-		return c.App("QBAnc", c.Z(op.N), c.Z(op.X))
-	case "qlocator":
-		return c.App("QLocator", c.Z(op.X))
-	case "qlatest":
-		return "QLatestLocator"
-	case "qftip":
-		return "QFTip"
-	case "qfheight":
-		return c.App("QFHeight", c.Z(op.N))
-	case "qfhash":
-		return c.App("QFHash", c.Z(op.X))
-	case "qfanc":
-		return c.App("QFAnc", c.Z(op.N), c.Z(op.X))
-	}
-	panic(op.Kind)
-}
-
-// ---------------------------------------------------------------------
-// Generation (adaptive: reads the real tips to produce mostly well-formed
-// calls; the stored history replays without regeneration).
-
-type gen struct {
-	r      *rand.Rand
-	e      *env
-	used   map[int64]bool // block tokens currently believed in the store
-	chain  []int64        // shadow block chain (tokens by height), best effort
-	fchain int            // shadow number of filter entries
-	nextF  int64
-}
-
-func (g *gen) fresh() int64 {
-	n := int64(len(g.e.pool.Headers))
-	for try := 0; try < 1000; try++ {
-		t := 1 + g.r.Int63n(n)
-		if !g.used[t] && t != g.e.pool.Genesis {
-			return t
-		}
-	}
-	return 1
-}
-
-func (g *gen) someHash() int64 {
-	x := g.r.Intn(10)
-	switch {
-	case x < 6 && len(g.chain) > 0:
-		return g.chain[g.r.Intn(len(g.chain))]
-	case x < 9:
-		return 1 + g.r.Int63n(int64(len(g.e.pool.Headers)))
-	default:
-		return 999999 // unknown
-	}
-}
-
-func (g *gen) someHeight() int64 {
-	n := int64(len(g.chain))
-	switch g.r.Intn(8) {
-	case 0:
-		return 0
-	case 1:
-		return n - 1
-	case 2:
-		return n
-	case 3:
-		return 4294967295
-	case 4:
-		return n + 3
-	default:
-		if n > 0 {
-			return g.r.Int63n(n)
-		}
-		return 0
-	}
-}
-
-func (g *gen) pickFault(app bool, nbytes int64, malformed bool) (string, int64) {
-	x := g.r.Intn(100)
-	if app {
-		switch {
-		case x < 78:
-			return "", 0
-		case x < 88 && nbytes > 0:
-			return "write", g.r.Int63n(nbytes)
-		case x < 95 && nbytes > 0:
-			return "db", 0
-		case malformed && nbytes > 0:
-			switch g.r.Intn(3) {
-			case 0:
-				return "writetrunc", 1 + g.r.Int63n(nbytes)
-			case 1:
-				return "dbsync", 0
-			default:
-				return "trunc", 0
-			}
-		}
-		return "", 0
-	}
-	if malformed && x < 30 {
-		if g.r.Intn(2) == 0 {
-			return "trunc", 0
-		}
-		return "db", 0
-	}
-	return "", 0
-}
-
-func (g *gen) next(malformed bool) Op {
-	r := g.r
-	x := r.Intn(100)
-	tipH := int64(len(g.chain)) - 1
-	switch {
-	case x < 22: // block append
-		k := []int{0, 1, 1, 2, 2, 5, 17}[r.Intn(7)]
-		op := Op{Kind: "bwrite", WF: true}
-		h := tipH + 1
-		for i := 0; i < k; i++ {
-			t := g.fresh()
-			g.used[t] = true
-			ht := h + int64(i)
-			if malformed && r.Intn(6) == 0 {
-				ht += int64(1 + r.Intn(3)) // gap / wrong height
-				op.WF = false
-			}
-			op.Es = append(op.Es, Ent{t, ht})
-		}
-		if malformed && k > 1 && r.Intn(5) == 0 {
-			// shuffled order
-			r.Shuffle(len(op.Es), func(i, j int) { op.Es[i], op.Es[j] = op.Es[j], op.Es[i] })
-			op.WF = false
-		}
-		op.Fault, op.K = g.pickFault(true, int64(k)*80, malformed)
-		if op.Fault == "writetrunc" || op.Fault == "dbsync" || op.Fault == "trunc" {
-			op.WF = false
-		}
-		return op
-	case x < 36: // filter append
-		room := len(g.chain) - g.fchain
-		k := []int{0, 1, 1, 2, 5}[r.Intn(5)]
-		op := Op{Kind: "fwrite", WF: true}
-		if k > room {
-			if !malformed {
-				k = room
-			} else {
-				op.WF = false
-			}
-		}
-		for i := 0; i < k; i++ {
-			g.nextF++
-			bt := int64(999998)
-			if g.fchain+i < len(g.chain) {
-				bt = g.chain[g.fchain+i]
-			}
-			if malformed && r.Intn(6) == 0 {
-				bt = g.someHash()
-				op.WF = false
-			}
-			op.Es = append(op.Es, Ent{storeh.FilterBase + 1 + (g.nextF % int64(len(g.e.pool.Filters)-1)), bt})
-		}
-		op.Fault, op.K = g.pickFault(true, int64(k)*32, malformed)
-		if op.Fault == "writetrunc" || op.Fault == "dbsync" || op.Fault == "trunc" {
-			op.WF = false
-		}
-		return op
-	case x < 46: // block rollback
-		op := Op{Kind: "brollback", WF: true}
-		room := int64(len(g.chain) - g.fchain)
-		switch r.Intn(6) {
-		case 0:
-			op.N = 0
-		case 1:
-			op.N = 1
-		case 2:
-			op.N = 2
-		case 3:
-			op.N = room
-		case 4:
-			op.N = tipH
-		default:
-			op.N = tipH + 1
-		}
-		if op.N > room || op.N > tipH {
-			if malformed {
-				op.WF = false
-			} else if room >= 0 {
-				op.N = room
-			}
-		}
-		op.Fault, op.K = g.pickFault(false, 0, malformed)
-		if op.Fault != "" {
-			op.WF = false
-		}
-		return op
-	case x < 53: // filter rollback
-		op := Op{Kind: "frollback", WF: true}
-		if g.fchain >= 2 && g.fchain-2 < len(g.chain) {
-			op.X = g.chain[g.fchain-2]
-		} else {
-			op.X = g.someHash()
-			op.WF = false
-			if !malformed {
-				return Op{Kind: "qftip", WF: true}
-			}
-		}
-		if malformed && r.Intn(4) == 0 {
-			op.X = g.someHash()
-			op.WF = false
-		}
-		op.Fault, op.K = g.pickFault(false, 0, malformed)
-		if op.Fault != "" {
-			op.WF = false
-		}
-		return op
-	case x < 59:
-		return Op{Kind: "reopen", WF: true}
-	case x < 64:
-		return Op{Kind: "qbtip", WF: true}
-	case x < 69:
-		return Op{Kind: "qbheight", N: g.someHeight(), WF: true}
-	case x < 74:
-		return Op{Kind: "qbhash", X: g.someHash(), WF: true}
-	case x < 78:
-		return Op{Kind: "qheightof", X: g.someHash(), WF: true}
-	case x < 82:
-		return Op{Kind: "qbanc", N: []int64{0, 1, 2, tipH, tipH + 1, 7}[r.Intn(6)], X: g.someHash(), WF: true}
-	case x < 85:
-		return Op{Kind: "qlocator", X: g.someHash(), WF: true}
-	case x < 87:
-		return Op{Kind: "qlatest", WF: true}
-	case x < 90:
-		return Op{Kind: "qftip", WF: true}
-	case x < 94:
-		return Op{Kind: "qfheight", N: g.someHeight(), WF: true}
-	case x < 97:
-		return Op{Kind: "qfhash", X: g.someHash(), WF: true}
-	default:
-		return Op{Kind: "qfanc", N: []int64{0, 1, 2, 5}[r.Intn(4)], X: g.someHash(), WF: true}
-	}
-}
-
-// resync refreshes the shadow chain from the real stores after each op.
-func (g *gen) resync() {
-	g.chain = g.chain[:0]
-	g.used = map[int64]bool{}
-	_, tip, err := g.e.bs.ChainTip()
-	if err == nil {
-		for h := uint32(0); h <= tip; h++ {
-			hd, err := g.e.bs.FetchHeaderByHeight(h)
-			if err != nil {
-				break
-			}
-			t := g.e.pool.HTok(hd)
-			g.chain = append(g.chain, t)
-			g.used[t] = true
-		}
-	}
-	_, ft, err := g.e.fs.ChainTip()
-	if err == nil {
-		g.fchain = int(ft) + 1
-	}
-}
-
-// fullDump appends the reads that pin down the whole visible state.
-func fullDump(g *gen) []Op {
-	ops := []Op{{Kind: "qbtip", WF: true}, {Kind: "qftip", WF: true}, {Kind: "qlatest", WF: true}}
-	n := int64(len(g.chain))
-	for h := int64(0); h <= n; h++ {
-		ops = append(ops, Op{Kind: "qbheight", N: h, WF: true}, Op{Kind: "qfheight", N: h, WF: true})
-	}
-	for _, t := range g.chain {
-		ops = append(ops, Op{Kind: "qheightof", X: t, WF: true}, Op{Kind: "qfhash", X: t, WF: true})
-	}
-	return ops
-}
+type Op = storeh.Op
+type History = storeh.History
 
 func runOne(id int, seed int64, nops int, base string, pool *storeh.Pool, replay *History) (h History, sig string, failedReopen bool) {
 	tmpl, err := storeh.Template(base)
@@ -616,18 +29,18 @@ func runOne(id int, seed int64, nops int, base string, pool *storeh.Pool, replay
 		panic(err)
 	}
 	defer os.RemoveAll(dir)
-	e := &env{dir: dir, pool: pool}
-	if err := e.open(); err != nil {
+	e := &storeh.Env{Dir: dir, Pool: pool}
+	if err := e.Open(); err != nil {
 		panic(err)
 	}
-	defer e.close()
+	defer e.Close()
 	h.ID = id
 	var sb strings.Builder
 	if replay != nil {
 		for i := range replay.Ops {
 			op := replay.Ops[i]
 			op.Obs = ""
-			ok := e.exec(&op)
+			ok := e.Exec(&op)
 			h.Ops = append(h.Ops, op)
 			if !ok {
 				break
@@ -636,12 +49,12 @@ func runOne(id int, seed int64, nops int, base string, pool *storeh.Pool, replay
 		return h, "replay", false
 	}
 	r := c.Rng(seed, id)
-	g := &gen{r: r, e: e, used: map[int64]bool{}}
-	g.resync()
+	g := &storeh.Gen{R: r, E: e, Used: map[int64]bool{}}
+	g.Resync()
 	malformedHist := id%10 >= 7 // 30 % of histories may contain ill-formed calls / double faults
 	for len(h.Ops) < nops {
-		op := g.next(malformedHist && r.Intn(3) == 0)
-		ok := e.exec(&op)
+		op := g.Next(malformedHist && r.Intn(3) == 0)
+		ok := e.Exec(&op)
 		h.Ops = append(h.Ops, op)
 		code := map[string]string{"bwrite": "B", "fwrite": "F", "brollback": "R", "frollback": "r", "reopen": "O"}[op.Kind]
 		if code == "" {
@@ -658,12 +71,12 @@ func runOne(id int, seed int64, nops int, base string, pool *storeh.Pool, replay
 			return h, sb.String(), true
 		}
 		if op.Kind[0] != 'q' {
-			g.resync()
+			g.Resync()
 		}
 	}
-	g.resync()
-	for _, op := range fullDump(g) {
-		e.exec(&op)
+	g.Resync()
+	for _, op := range storeh.FullDump(g) {
+		e.Exec(&op)
 		h.Ops = append(h.Ops, op)
 	}
 	return h, sb.String(), false
@@ -677,25 +90,9 @@ func main() {
 	defer os.RemoveAll(base)
 
 	// genesis filter header token: read from a fresh template store
-	tmpl, err := storeh.Template(base)
+	gf, err := storeh.ProbeGenesisFilter(base)
 	if err != nil {
 		panic(err)
-	}
-	var gf chainhash.Hash
-	{
-		d := filepath.Join(base, "probe")
-		storeh.CopyDir(tmpl, d)
-		e := &env{dir: d}
-		if err := e.open(); err != nil {
-			panic(err)
-		}
-		h, err := e.fs.FetchHeaderByHeight(0)
-		if err != nil {
-			panic(err)
-		}
-		gf = *h
-		e.close()
-		os.RemoveAll(d)
 	}
 	pool := storeh.NewPool(600, gf)
 
@@ -762,7 +159,7 @@ func main() {
 			}
 			var items []string
 			for j := range hs[i].Ops {
-				items = append(items, c.Pair(opTerm(&hs[i].Ops[j]), hs[i].Ops[j].Obs))
+				items = append(items, c.Pair(storeh.OpTerm(&hs[i].Ops[j]), hs[i].Ops[j].Obs))
 			}
 			sb.WriteString(c.Pair(c.Z(int64(hs[i].ID)), c.List(items)))
 		}
